@@ -247,7 +247,7 @@ theorem C15_once_per_generation_stored (parent : J) (cached : CustCache) :
     intro r _
     cases r with
     | hookOk body => exact PE.AllOk.pure ⟨rfl, fun b hb => by cases hb⟩
-    | hook429 n => exact PE.AllOk.fail _
+    | hook429 n => exact PE.AllOk.throw _
     | hookErr k => exact PE.AllOk.fail _
     | obj o => exact PE.AllOk.fail _
     | err e => exact PE.AllOk.fail _
